@@ -13,6 +13,7 @@
      cert_info parseCertificate,  enc_name  keystore.Entry.EncryptionAlgorithm().Name
    The harness records their answers per case. *)
 From WI Require Import Lib.Base Lib.Info Lib.Strings Lib.Time.
+From WI Require Model.Base64 Model.Pem.
 Open Scope N_scope.
 
 (* ------------------------------------------------------------------ *)
@@ -146,6 +147,162 @@ Definition known_hosts_pre (lib : bytes -> result attrs) (data : bytes) : result
   ssh_file ssh_skip_pre_hosts lib (bs "SSH known_hosts") data.
 
 (* ------------------------------------------------------------------ *)
+(* golang.org/x/crypto v0.28.0 ssh/keys.go: ParseAuthorizedKey (:165), ParseKnownHosts (:111) and
+   parseAuthorizedKey (:86) - how a line is split into fields - down to, but not including,
+   ssh.ParsePublicKey: the parameter key_of stands for ParsePublicKey on the base64-decoded blob followed
+   by the attribute builder (pub.Type(), cryptoPublicKeyAttributes); the harness records its answers *)
+
+Definition is_sp_tab (c : N) : bool := (c =? 32) || (c =? 9).
+
+(* s[:i], s[i:] for i = bytes.IndexAny(s, space or tab); i = len(s) when there is none (then the second part is empty;
+   it is never empty otherwise: it starts with the blank) *)
+Fixpoint span_word (l : bytes) : bytes * bytes :=
+  match l with
+  | [] => ([], [])
+  | c :: r => if is_sp_tab c then ([], l) else let (w, t) := span_word r in (c :: w, t)
+  end.
+
+Fixpoint skip_sp_tab (l : bytes) : bytes :=
+  match l with
+  | c :: r => if is_sp_tab c then skip_sp_tab r else l
+  | [] => []
+  end.
+
+(* the option scanner of ParseAuthorizedKey (keys.go:201-217): returns in[i:] for the i the loop ends with -
+   the first blank outside quotes, or the LAST index when there is none (Go's range variable keeps its
+   last value).  A double quote toggles the quote state unless the byte before it is a backslash.  The options
+   themselves are dropped by the callers in internal/file. *)
+Fixpoint opt_scan (prev : option N) (inq : bool) (l : bytes) : bytes :=
+  match l with
+  | [] => []
+  | b :: r =>
+      if negb inq && is_sp_tab b then l
+      else
+        let esc := match prev with Some p => p =? 92 | None => false end in
+        let inq' := if (b =? 34) && negb esc then negb inq else inq in
+        match r with
+        | [] => [b]
+        | _ :: _ => opt_scan (Some b) inq' r
+        end
+  end.
+
+(* bytes.Fields: maximal runs of bytes between white-space runes (unicode.IsSpace, see trim_space) *)
+Definition flush_field (cur : bytes) (acc : list bytes) : list bytes :=
+  match cur with [] => acc | _ => rev' cur :: acc end.
+Fixpoint fields_go (cur : bytes) (acc : list bytes) (l : bytes) : list bytes :=
+  match l with
+  | [] => rev' (flush_field cur acc)
+  | a :: r1 =>
+      if is_sp1 a then fields_go [] (flush_field cur acc) r1 else
+      match r1 with
+      | b :: r2 =>
+          if is_sp2 a b then fields_go [] (flush_field cur acc) r2 else
+          match r2 with
+          | c :: r3 => if is_sp3 a b c then fields_go [] (flush_field cur acc) r3 else fields_go (a :: cur) acc r1
+          | [] => fields_go (a :: cur) acc r1
+          end
+      | [] => fields_go (a :: cur) acc r1
+      end
+  end.
+Definition fields (l : bytes) : list bytes := fields_go [] [] l.
+
+(* keys.go:153 if keyFields[0][0] == '@' { marker = ...; keyFields = keyFields[1:] }  ("@cert-authority", "@revoked") *)
+Definition strip_marker (fs : list bytes) : list bytes :=
+  match fs with
+  | (x :: _) :: t => if x =? 64 then t else fs
+  | _ => fs
+  end.
+
+Definition keyinfo := (bytes * attrs)%type.     (* pub.Type(), the attributes of the key itself *)
+
+Section SshLine.
+  Variable key_of : bytes -> result keyinfo.
+
+  (* internal/file/ssh.go sshPublicKeyAttributes / sshKnownHostsKeyAttributes *)
+  Definition key_attrs (k : keyinfo) (comment : bytes) : attrs :=
+    (bs "Type", fst k) :: (match comment with [] => [] | _ => [(bs "Comment", comment)] end) ++ snd k.
+  Definition hosts_attr (hosts : bytes) : bytes * bytes :=
+    (bs "Hosts", join (bs ", ") (split_on 44 hosts)).       (* strings.Join(strings.Split(hosts, ","), ", ") *)
+
+  (* keys.go:86 parseAuthorizedKey: the base64 field, the key, comment = the rest, trimmed *)
+  Definition parse_key_field (l : bytes) : result (keyinfo * bytes) :=
+    let t := trim_space l in
+    let (b64, rest) := span_word t in
+    match Base64.std_decode Base64.Std b64 with
+    | None => Err "illegal base64 data"
+    | Some key =>
+        match key_of key with
+        | Ok k => Ok (k, trim_space rest)
+        | Err e => Err e
+        | Panic e => Panic e
+        end
+    end.
+
+  (* one iteration of the loop of ParseAuthorizedKey on a line (no LF): None = `continue` *)
+  Definition auth_line (l : bytes) : option (result attrs) :=
+    let l1 := trim_space (cut_at 13 l) in
+    match l1 with
+    | [] => None
+    | x :: _ =>
+        if x =? 35 then None else
+        match snd (span_word l1) with
+        | [] => None                                        (* no blank in the line *)
+        | r =>
+            match parse_key_field r with
+            | Ok (k, c) => Some (Ok (key_attrs k c))
+            | Panic e => Some (Panic e)
+            | Err _ =>
+                (* no key after the first field: maybe the line starts with options *)
+                match skip_sp_tab (opt_scan None false l1) with
+                | [] => None                                (* "unmatched quote" *)
+                | l2 =>
+                    match snd (span_word l2) with
+                    | [] => None
+                    | r2 =>
+                        match parse_key_field r2 with
+                        | Ok (k, c) => Some (Ok (key_attrs k c))
+                        | Panic e => Some (Panic e)
+                        | Err _ => None
+                        end
+                    end
+                end
+            end
+        end
+    end.
+
+  (* one iteration of the loop of ParseKnownHosts *)
+  Definition hosts_line (l : bytes) : option (result attrs) :=
+    let l1 := trim_space (cut_at 13 l) in
+    match l1 with
+    | [] => None
+    | x :: _ =>
+        if x =? 35 then None else
+        match snd (span_word l1) with
+        | [] => None
+        | _ =>
+            let fs := fields l1 in
+            if Nat.ltb (length fs) 3 || Nat.ltb 5 (length fs) then Some (Err "ssh: invalid entry in known_hosts data")
+            else
+              let fs' := strip_marker fs in
+              match parse_key_field (join [32] (drop 2 fs')) with
+              | Ok (k, c) => Some (Ok (hosts_attr (hd [] fs') :: key_attrs k c))
+              | Err e => Some (Err e)
+              | Panic e => Some (Panic e)
+              end
+        end
+    end.
+
+  (* the loops: line after line until one returns *)
+  Fixpoint first_line (f : bytes -> option (result attrs)) (eof : string) (ls : list bytes) : result attrs :=
+    match ls with
+    | [] => Err eof
+    | l :: r => match f l with Some res => res | None => first_line f eof r end
+    end.
+  Definition ssh_auth_lib (chunk : bytes) : result attrs := first_line auth_line "ssh: no key found"%string (split_lf chunk).
+  Definition ssh_hosts_lib (chunk : bytes) : result attrs := first_line hosts_line "EOF"%string (split_lf chunk).
+End SshLine.
+
+(* ------------------------------------------------------------------ *)
 (* PEMFile + skipToPEMBlock  (parsers.go) *)
 
 Record pblock := mkpblock { pb_type : bytes; pb_bytes : bytes }.
@@ -200,6 +357,44 @@ Section PemFile.
     | Panic e => Panic e
     end.
 End PemFile.
+
+(* encoding/pem.Decode as modelled byte for byte in Model/Pem.v (C05): the instance of [dec] the
+   bundle theorems of Props/C06.v are stated for; the correspondence check compares it with the real
+   decoder at every "-----BEGIN " of every case *)
+Definition pem_dec (rest : bytes) : option (pblock * bytes) :=
+  match Pem.pem_decode rest with
+  | Some (t, b, r) => Some (mkpblock t b, r)
+  | None => None
+  end.
+
+(* a block as it is written down (RFC 7468 / encoding/pem.Encode, with the freedom other writers take):
+   label, header lines ("Proc-Type: 4,ENCRYPTED", ...; followed by an empty line when there are any),
+   the base64 text of the body broken after every ab_wrap characters (0: one line), LF or CRLF line
+   endings, and whether the END line is terminated (ab_fin = false: the file ends right after it) *)
+Record ablock := mkablock {
+  ab_label : bytes; ab_headers : list bytes; ab_body : bytes;
+  ab_wrap : nat; ab_crlf : bool; ab_fin : bool }.
+
+Definition pem_eol (crlf : bool) : bytes := if crlf then [13; 10] else [10].
+Definition pem_end : bytes := bs "-----END ".
+Definition pem_dashes : bytes := bs "-----".
+
+Definition armor_headers (crlf : bool) (hs : list bytes) : bytes :=
+  match hs with
+  | [] => []
+  | _ => concat (map (fun h => h ++ pem_eol crlf) hs) ++ pem_eol crlf
+  end.
+Definition armor_body (w : nat) (crlf : bool) (d : bytes) : bytes :=
+  match d with
+  | [] => []
+  | _ => Base64.wrap w crlf (Base64.encode Base64.Std d) ++ pem_eol crlf
+  end.
+Definition armor (b : ablock) : bytes :=
+  pem_begin ++ ab_label b ++ pem_dashes ++ pem_eol (ab_crlf b)
+  ++ armor_headers (ab_crlf b) (ab_headers b)
+  ++ armor_body (ab_wrap b) (ab_crlf b) (ab_body b)
+  ++ pem_end ++ ab_label b ++ pem_dashes ++ (if ab_fin b then pem_eol (ab_crlf b) else []).
+Definition ablock_block (b : ablock) : pblock := mkpblock (ab_label b) (ab_body b).
 
 (* ------------------------------------------------------------------ *)
 (* jks-go keystore/jks.go: the reader *)
